@@ -21,6 +21,7 @@ func TestProp(t *testing.T) {
 		Exhaustive: true,
 	})
 	addSingle(r)
+	addSeq(r)
 	addMulti(r)
 	r.Main()
 	statMu.Lock()
